@@ -63,6 +63,7 @@ CONSTANTS
   PDESCS, FDESCS,       \* part / file description classes ("" = none)
   FNAMES, FCIDS,        \* file name / content-id classes ("" = default)
   OPSEQS,               \* render-operation sequences (C11)
+  STYLES,               \* how the configuration reaches the message: "" = options at construction, "set" = the setter methods of Msg and Part afterwards
   MWS,                  \* middlewares of the caller ("" = none, "attach", "body"): applied by every render before signing
   SMIMES,               \* S/MIME signing (C08): set of [key, inter]; key "" = unsigned
   ROUNDTRIP,            \* subset of BOOLEAN: parse the rendering with the EML parser and render again (C10)
@@ -87,10 +88,10 @@ AllProgs ==
     parts  |-> [k \in 1..np |-> PartSpec(k, rot + np + 2 * ne + 3 * na, pe[k], k = dl, IF k = np THEN pd ELSE "")],
     embeds |-> [k \in 1..ne |-> FileSpec(k, rot + np + ne, fe, TRUE, IF k = 1 THEN fd ELSE "", IF k = 1 THEN fn ELSE "", fc)],
     atts   |-> [k \in 1..na |-> FileSpec(k, rot + na + 4, fa, FALSE, IF k = na THEN fd ELSE "", IF k = na THEN fn ELSE "", "")],
-    boundary |-> b, hdrs |-> hs, smime |-> sm, mw |-> mw] :
+    boundary |-> b, hdrs |-> hs, smime |-> sm, mw |-> mw, style |-> st] :
      e \in ENCS, np \in 0..MAXP, ne \in 0..MAXE, na \in 0..MAXA, rot \in ROTS, b \in BOUNDARIES,
      pe \in [1..MAXP -> PENCS], fe \in FENCS, fa \in FENCS, dl \in DELS,
-     hs \in HDRS, pd \in PDESCS, fd \in FDESCS, fn \in FNAMES, fc \in FCIDS, sm \in SMIMES, mw \in MWS}
+     hs \in HDRS, pd \in PDESCS, fd \in FDESCS, fn \in FNAMES, fc \in FCIDS, sm \in SMIMES, mw \in MWS, st \in STYLES}
 
 (* a message has at least one leaf *)
 Live(p) == SelectSeq(p.parts, LAMBDA x : ~x.del)
